@@ -160,6 +160,10 @@ def finite_model_search(pc, goal, extra=(), rounds=12, budget_s=4, why=None):
         m = sf.model() if sf.check() == z3.sat else s.model()
         bad = 0
         for q in foralls:
+            if time.time() - t0 > budget_s:
+                if why is not None:
+                    why.append('budget while validating round %d' % rnd)
+                return None
             # the conjunct under the model's interpretation of every symbol; its own bound variables stay
             # bound (model completion must not touch them), so it is a closed formula
             v = m.eval(q, model_completion=True)
@@ -170,7 +174,7 @@ def finite_model_search(pc, goal, extra=(), rounds=12, budget_s=4, why=None):
             cs = [z3.FreshConst(q.var_sort(i), 'w') for i in range(q.num_vars())]
             ev = m.eval(z3.substitute_vars(q.body(), *reversed(cs)), model_completion=False)
             s2 = z3.Solver()
-            s2.set('timeout', 3000)
+            s2.set('timeout', 1500)
             s2.add(z3.Not(ev))
             r2 = s2.check()
             if r2 == z3.sat:
@@ -181,7 +185,7 @@ def finite_model_search(pc, goal, extra=(), rounds=12, budget_s=4, why=None):
                 continue
             # no witness: accept the conjunct only if its completed evaluation is provably true
             s3 = z3.Solver()
-            s3.set('timeout', 3000)
+            s3.set('timeout', 1500)
             s3.add(z3.Not(v))
             if s3.check() != z3.unsat:
                 if why is not None:
@@ -247,7 +251,8 @@ def prove(pc, goal, timeout_ms=None, extra=()):
                 return 'refuted', s2.model(), int((time.time() - t0) * 1000), 'z3 (seed %d)' % seed
     fm = None
     try:
-        fm = finite_model_search(pc, goal, extra)
+        small = timeout_ms is not None and timeout_ms <= 2000
+        fm = finite_model_search(pc, goal, extra, rounds=6 if small else 12, budget_s=1.5 if small else 4)
     except z3.Z3Exception:
         fm = None
     if fm is not None:
@@ -347,7 +352,19 @@ UNKNOWN_BUDGET = int(os.environ.get('VERIF_UNKNOWN_BUDGET', '6'))
 _unknowns = [0]
 
 
+_refuted = [0]
+_proc_start = time.time()
+SKIP_AFTER_REFUTED = int(os.environ.get('VERIF_SKIP_AFTER_REFUTED', '25'))
+SKIP_AFTER_SECONDS = int(os.environ.get('VERIF_SKIP_AFTER_SECONDS', '120'))
+
+
 def discharge(name, kind, pc, goal, function=None, path=None, extra=(), replay=None, timeout_ms=None):
+    if (_refuted[0] >= SKIP_AFTER_REFUTED and time.time() - _proc_start > SKIP_AFTER_SECONDS) or \
+            (_unknowns[0] >= UNKNOWN_BUDGET and time.time() - _proc_start > 2.5 * SKIP_AFTER_SECONDS):
+        # this worker has refuted many obligations already and has been at it for minutes: the tree breaks the
+        # property, the exit code is decided; the remaining obligations are not attempted (reported undecided)
+        return Result(name, kind, 'unknown', ms=0, backend='not attempted', function=function, path=path,
+                      detail='not attempted: %d obligations already refuted and %d undecided in this worker' % (_refuted[0], _unknowns[0]))
     # several undecided obligations, or genuine countermodels already found: the tree breaks a contract;
     # the remaining obligations only add detail, so they get a small budget
     degraded = _unknowns[0] >= UNKNOWN_BUDGET or _cegar_hits[0] >= 2
@@ -358,6 +375,8 @@ def discharge(name, kind, pc, goal, function=None, path=None, extra=(), replay=N
     verdict, model, ms, backend = prove(pc, goal, timeout_ms, extra)
     if verdict == 'unknown':
         _unknowns[0] += 1
+    if verdict == 'refuted':
+        _refuted[0] += 1
     if verdict == 'unknown' and timeout_ms is None:
         # retry on the cone of influence of the goal (dropping assumptions is sound), then with a larger budget
         sub = cone_of_influence(pc, goal)
